@@ -9,7 +9,8 @@ A history is any list of push / pull(emptive) / extend|update / clear / remove /
 (close the store, open it again, inject a fresh queue object at the key, which syncs) may occur between ANY two
 operations.  `hrun` reports after every step: the result, the in-memory content, the durable content at the key.
 `specHRun` is the FIFO queue (Durq) / insertion-ordered set with FIFO pull (Dusq) whose durable column is, by
-definition, the content itself, and for which `reopen` is the identity.
+definition, the content itself, and for which `reopen pre` keeps a non-empty content and turns an empty one into the
+preload `pre` of the injected object (fresh object: `pre = []`, the identity).
 
 FULL STATEMENT: for every history, `hrun … = specHRun …`.
 * Durq: proved for every `cls` (no guard) — `durq_refines_fifo`.
@@ -30,17 +31,17 @@ variable {α : Type} [DecidableEq α] (cls : Bytes → α)
 (the crash-point quantifier is inside: `HOp.reopen` is an operation of the history), any `==`. -/
 theorem durq_refines_fifo (K : Bytes → Prop) (k : Bytes) (hk : K k) (B : Nat) (hE : ExactAt K k B) (hB : B < 16 ^ W)
     (hvk : validKey (suffix k 0) = true) (τ : St)
-    (os : List HOp) (n : Nat) (db : Db) (q : Q) (hq : QInv K k .durq n db q.mem τ) (hfit : n + htotal os ≤ B) :
+    (os : List HOp) (n : Nat) (db : Db) (q : Q) (hq : QInv K k .durq n db q.mem τ) (hst : q.stale = false) (hfit : n + htotal os ≤ B) :
     hrun cls .durq k db q os = specHRun cls .durq q.mem os :=
-  hrun_refines cls (fun h => by cases h) hk hE hB hvk os n db q hq hfit
+  hrun_refines cls (fun h => by cases h) hk hE hB hvk os n db q hq hst hfit
 
 /-- Dusq = insertion-ordered set with FIFO pull (partial: `==` agrees with serialisation equality). -/
 theorem dusq_refines_oset_partial (hinj : ∀ a b, cls a = cls b → a = b)
     (K : Bytes → Prop) (k : Bytes) (hk : K k) (B : Nat) (hE : ExactAt K k B) (hB : B < 16 ^ W)
     (hvk : validKey (suffix k 0) = true) (τ : St)
-    (os : List HOp) (n : Nat) (db : Db) (q : Q) (hq : QInv K k .dusq n db q.mem τ) (hfit : n + htotal os ≤ B) :
+    (os : List HOp) (n : Nat) (db : Db) (q : Q) (hq : QInv K k .dusq n db q.mem τ) (hst : q.stale = false) (hfit : n + htotal os ≤ B) :
     hrun cls .dusq k db q os = specHRun cls .dusq q.mem os :=
-  hrun_refines cls (fun _ => hinj) hk hE hB hvk os n db q hq hfit
+  hrun_refines cls (fun _ => hinj) hk hE hB hvk os n db q hq hst hfit
 
 /-- ONE REFINEMENT THEOREM for the whole Hold: several queues of one kind at the keys `keys` in one store, histories of
 operations addressed to any of them — INCLUDING REJECTED CALLS (`MOp.a`: arguments as passed, `None` / foreign objects at
@@ -50,11 +51,20 @@ queues / ordered sets (`specMRun`: durable column = content, reopen = identity, 
 This contains `durable_mirror`, `reopen_restores` and key independence. -/
 theorem hold_refines (kind : QKind) (hinj : kind = .dusq → ∀ a b, cls a = cls b → a = b)
     (K : Bytes → Prop) (B : Nat) (hG : ∀ k, K k → ExactAt K k B) (hB : B < 16 ^ W)
-    (hvk : ∀ k, K k → validKey (suffix k 0) = true) (keys : List Bytes) (hkeys : ∀ k ∈ keys, K k)
+    (hvk : ∀ k, K k → validKey (suffix k 0) = true) (keys : List Bytes) (hnd : keys.Nodup) (hkeys : ∀ k ∈ keys, K k)
     (os : List MOp) (n : Nat) (db : Db) (ms : MS) (σ : St) (hm : MInv K kind keys n db ms) (hσ : ∀ k ∈ keys, σ k = (ms k).mem)
-    (hos : ∀ o ∈ os, ∀ k, mkey o = some k → k ∈ keys) (hfit : n + mtotal os ≤ B) :
+    (hos : ∀ o ∈ os, ∀ k, mkey o = some k → k ∈ keys) (hfit : n + mtotal keys os ≤ B) :
     mrun cls kind keys db ms os = specMRun cls kind keys σ os :=
-  mrun_refines cls hinj hG hB hvk keys hkeys os n db ms σ hm hσ hos hfit
+  mrun_refines cls hinj hG hB hvk keys hnd hkeys os n db ms σ hm hσ hos hfit
+
+/-- what reopen does in the specification, for EVERY preload handed to the new objects (fresh = empty preload, same /
+permuted / shorter / longer / unrelated content): at every key of the Hold a non-empty content is kept — the durable
+copy wins over the preload — and an empty one becomes the preload (as a list for Durq, as an ordered set for Dusq);
+other keys are untouched.  With `hold_refines` this is `reopen_restores` for every preload, at every position. -/
+theorem spec_reopen_any_preload (kind : QKind) (keys : List Bytes) (σ : St) (pre : Bytes → List Bytes) (k : Bytes) :
+    (specM cls kind keys σ (.reopen pre)).2 = .bool true ∧
+    (specM cls kind keys σ (.reopen pre)).1 k =
+      if k ∈ keys then (if σ k = [] then initS kind (pre k) else σ k) else σ k := ⟨rfl, rfl⟩
 
 /-- REJECTED ⇒ IDENTITY, for every operation: whenever a method refuses its argument (`push(None)` → False; a non-RegDom
 as push / remove argument or at ANY position of an extend|update batch → HierError; `count` of a foreign object → 0) the
@@ -62,7 +72,7 @@ store, the addressed queue and every other queue are exactly as before, and the 
 identity too (`specM`), so `hold_refines` covers histories in which rejected calls occur anywhere. -/
 theorem rejected_op_is_identity (kind : QKind) (keys : List Bytes) (db : Db) (ms : MS) (σ : St) (k : Bytes) (ao : AOp) (r : QRes)
     (h : validate ao = .error r) :
-    mstep cls kind keys db ms (.a k ao) = (db, ms, r) ∧ specM cls kind σ (.a k ao) = (σ, r) :=
+    mstep cls kind keys db ms (.a k ao) = (db, ms, r) ∧ specM cls kind keys σ (.a k ao) = (σ, r) :=
   ⟨mstep_rejected cls kind keys db ms k ao r h, by simp only [specM, h]⟩
 
 /-- which calls are rejected: exactly those with a `None` / foreign argument (any position of a batch) -/
@@ -78,6 +88,7 @@ theorem rejected_iff_bad_argument (ao : AOp) :
   | count a => cases a <;> simp [validate]
   | pull e => simp [validate]
   | clear => simp [validate]
+  | sync f => simp [validate]
   | extend as =>
     simp only [validate]
     induction as with
@@ -93,39 +104,43 @@ theorem rejected_iff_bad_argument (ao : AOp) :
       | junk => simp [argsOk]
 
 /-- the specification side of key independence: an operation addressed to `k` leaves every other queue's content alone -/
-theorem spec_other_queue_unchanged (kind : QKind) (σ : St) (k k' : Bytes) (o : QOp) (h : k' ≠ k) :
-    (specM cls kind σ (.q k o)).1 k' = σ k' := by simp [specM, upd, h]
+theorem spec_other_queue_unchanged (kind : QKind) (keys : List Bytes) (σ : St) (k k' : Bytes) (o : QOp) (h : k' ≠ k) :
+    (specM cls kind keys σ (.q k o)).1 k' = σ k' := by simp [specM, upd, h]
 
 /-- DURABLE MIRROR: after every operation of every history (reopen anywhere) the durable content at the key is the
 in-memory content, in the same order (Durq: any `cls`; Dusq: under the guard). -/
 theorem durable_mirror (kind : QKind) (hinj : kind = .dusq → ∀ a b, cls a = cls b → a = b)
     (K : Bytes → Prop) (k : Bytes) (hk : K k) (B : Nat) (hE : ExactAt K k B) (hB : B < 16 ^ W)
     (hvk : validKey (suffix k 0) = true) (τ : St)
-    (os : List HOp) (n : Nat) (db : Db) (q : Q) (hq : QInv K k kind n db q.mem τ) (hfit : n + htotal os ≤ B) :
+    (os : List HOp) (n : Nat) (db : Db) (q : Q) (hq : QInv K k kind n db q.mem τ) (hst : q.stale = false) (hfit : n + htotal os ≤ B) :
     ∀ x ∈ hrun cls kind k db q os, x.2.2 = .ok x.2.1 := by
-  rw [hrun_refines cls hinj hk hE hB hvk os n db q hq hfit]
+  rw [hrun_refines cls hinj hk hE hB hvk os n db q hq hst hfit]
   exact specHRun_mirror cls kind os q.mem
 
-/-- REOPEN RESTORES: after ANY history (i.e. at any point between operations) closing, reopening and re-injecting
-a fresh queue object yields exactly the content held before, and the durable copy still equals it. -/
+/-- REOPEN RESTORES, for every preload: after ANY history (i.e. at any point between operations) closing, reopening and
+injecting a new object built from ANY preload `pre` yields the content held before when that was non-empty (the preload
+is discarded, whatever its length or content), and the preload itself when the queue was empty; the durable copy equals
+the result either way. -/
 theorem reopen_restores (kind : QKind) (hinj : kind = .dusq → ∀ a b, cls a = cls b → a = b)
     (K : Bytes → Prop) (k : Bytes) (hk : K k) (B : Nat) (hE : ExactAt K k B) (hB : B < 16 ^ W)
     (hvk : validKey (suffix k 0) = true) (τ : St)
-    (os : List HOp) (n : Nat) (db : Db) (q : Q) (hq : QInv K k kind n db q.mem τ) (hfit : n + htotal os ≤ B) :
-    ∃ db' q', hstep cls kind k (hfinal cls kind k db q os).1 (hfinal cls kind k db q os).2 .reopen = (db', q', .bool true) ∧
-      q'.mem = (hfinal cls kind k db q os).2.mem ∧ durable db' k = .ok (hfinal cls kind k db q os).2.mem := by
-  have hf := hfinal_inv cls hinj hk hE hB hvk os n db q hq hfit
-  obtain ⟨db', q', h1, h2, h3⟩ := hstep_refines cls hinj hk hE hB hvk hf .reopen (by simp [hweight]; omega)
+    (os : List HOp) (n : Nat) (db : Db) (q : Q) (hq : QInv K k kind n db q.mem τ) (hst : q.stale = false) (pre : List Bytes)
+    (hfit : n + htotal os + pre.length ≤ B) :
+    ∃ db' q', hstep cls kind k (hfinal cls kind k db q os).1 (hfinal cls kind k db q os).2 (.reopen pre) = (db', q', .bool true) ∧
+      q'.mem = (if (hfinal cls kind k db q os).2.mem = [] then initS kind pre else (hfinal cls kind k db q os).2.mem) ∧
+      durable db' k = .ok q'.mem := by
+  have hf := hfinal_inv cls hinj hk hE hB hvk os n db q hq hst (by omega)
+  obtain ⟨db', q', h1, h2, h3⟩ := hstep_refines cls hinj hk hE hB hvk hf.1 hf.2 (.reopen pre) (by simp only [hweight]; omega)
   refine ⟨db', q', h1, h2, ?_⟩
-  rw [durable, getIoVals_spec h3.rel.inv (h3.rel.noChild hE hB (by simp [hweight]; omega)), h3.mirror, h2]; rfl
+  rw [durable, getIoVals_spec h3.rel.inv (h3.rel.noChild hE hB (by simp only [hweight]; omega)), h3.mirror]
 
 /-- no `HierError` ("Mismatch between cache and durable") ever escapes, and `remove` never raises (F37 repaired) -/
 theorem no_mismatch_error (kind : QKind) (hinj : kind = .dusq → ∀ a b, cls a = cls b → a = b)
     (K : Bytes → Prop) (k : Bytes) (hk : K k) (B : Nat) (hE : ExactAt K k B) (hB : B < 16 ^ W)
     (hvk : validKey (suffix k 0) = true) (τ : St)
-    (os : List HOp) (n : Nat) (db : Db) (q : Q) (hq : QInv K k kind n db q.mem τ) (hfit : n + htotal os ≤ B) :
+    (os : List HOp) (n : Nat) (db : Db) (q : Q) (hq : QInv K k kind n db q.mem τ) (hst : q.stale = false) (hfit : n + htotal os ≤ B) :
     ∀ x ∈ hrun cls kind k db q os, x.1 ≠ .raise .hierError := by
-  rw [hrun_refines cls hinj hk hE hB hvk os n db q hq hfit]
+  rw [hrun_refines cls hinj hk hE hB hvk os n db q hq hst hfit]
   exact specHRun_no_hier cls kind os q.mem
 
 end
@@ -133,9 +148,14 @@ end
 /-- the ordered-set content never holds a value twice (so "set" is meant) -/
 theorem dusq_content_nodup (l : List Bytes) (h : l.Nodup) (o : HOp) : (specQ (fun b => b) .dusq l o).1.Nodup := by
   cases o with
-  | reopen => exact h
+  | reopen pre =>
+    simp only [specQ]
+    split
+    · exact addAll_nodup pre List.nodup_nil
+    · exact h
   | op o =>
     cases o with
+    | sync f => exact h
     | push v => exact addOne_nodup v h
     | pull e => cases l with
       | nil => exact List.nodup_nil
@@ -151,7 +171,7 @@ theorem dusq_content_nodup (l : List Bytes) (h : l.Nodup) (o : HOp) : (specQ (fu
 in-memory set holds one value, the durable copy two; a reopen then restores one value over a durable copy of two;
 two pulls later the second pull raises HierError. -/
 theorem dusq_mirror_fails_without_guard :
-    hrun (fun _ => 0) .dusq [113] [] ⟨[], true⟩ [.op (.push [1]), .op (.push [2]), .reopen, .op (.pull true), .op (.pull true)] =
+    hrun (fun _ => 0) .dusq [113] [] ⟨[], true⟩ [.op (.push [1]), .op (.push [2]), .reopen [], .op (.pull true), .op (.pull true)] =
       [(.bool true, [[1]], .ok [[1]]),
        (.bool true, [[1]], .ok [[1], [2]]),
        (.bool true, [[1]], .ok [[1], [2]]),
@@ -166,7 +186,7 @@ example : QInv (fun k => k = [113] ∨ k = [114]) [113] .dusq 0 [] [] (fun _ => 
 
 /-- … and the freshly built Hold over the empty store satisfies the invariant of `hold_refines` -/
 example : MInv (fun k => k = [113] ∨ k = [114]) .dusq [[113], [114]] 0 [] (fun _ => ⟨[], false⟩) :=
-  ⟨⟨inv_nil, by simp, (by intro e he; cases he), fun _ => rfl⟩, fun _ _ => ⟨rfl, fun _ => List.nodup_nil⟩⟩
+  ⟨⟨inv_nil, by simp, (by intro e he; cases he), fun _ => rfl⟩, fun _ _ => ⟨rfl, fun _ => List.nodup_nil, rfl⟩⟩
 
 example : ∀ k, (fun k => k = [113] ∨ k = [114]) k → ExactAt (fun k => k = [113] ∨ k = [114]) k 100000 := by
   intro k hk k' hk' hne
@@ -179,7 +199,7 @@ example : SepFree (fun k => k = [113] ∨ k = [114]) := by
 example : ∀ a b : Bytes, (fun b => b) a = (fun b => b) b → a = b := fun _ _ h => h
 
 /-- and the theorems say something on a concrete history (test, not the claim) -/
-example : hrun (fun b => b) .dusq [113] [] ⟨[], true⟩ [.op (.extend [[1], [2], [1]]), .reopen, .op (.remove [1]), .op (.pull false), .op (.pull false)] =
+example : hrun (fun b => b) .dusq [113] [] ⟨[], true⟩ [.op (.extend [[1], [2], [1]]), .reopen [[9]], .op (.remove [1]), .op (.pull false), .op (.pull false)] =
     [(.bool true, [[1], [2]], .ok [[1], [2]]), (.bool true, [[1], [2]], .ok [[1], [2]]), (.bool true, [[2]], .ok [[2]]),
      (.val (some [2]), [], .ok []), (.raise .indexError, [], .ok [])] := by decide +kernel
 
